@@ -520,6 +520,9 @@ class GroupBy:
             values
         """
         indexer = self._group_sort_indexer
+        # the arrays handed out below are views of this cached indexer, which
+        # apply / median / quantile keep using: they must not be writable
+        indexer.setflags(write=False)
         key_count = self.ikey_count[self._labels_argsort]
         group_indexers = np.array_split(indexer, np.cumsum(key_count)[:-1])
         return {
